@@ -27,6 +27,9 @@ use crate::{Case, CloseKind, Log, ParamCfg, Profile, RunLog, Side, StreamSpec, n
 pub const CA_CERT: &[u8] = include_bytes!("../../../certs/ca.cert");
 pub const SERVER_CERT: &[u8] = include_bytes!("../../../certs/server.cert");
 pub const SERVER_KEY: &[u8] = include_bytes!("../../../certs/server.key");
+pub const BIG_CA_CERT: &[u8] = include_bytes!("../../../certs/big/ca.cert");
+pub const BIG_SERVER_CERT: &[u8] = include_bytes!("../../../certs/big/server.cert");
+pub const BIG_SERVER_KEY: &[u8] = include_bytes!("../../../certs/big/server.key");
 
 fn client_params(p: &ParamCfg) -> ClientParameters {
     let mut c = ClientParameters::default();
@@ -376,7 +379,28 @@ pub async fn drive(case: &Case) -> Outcome {
 
     let factory: Arc<dyn ProductIO> = Arc::new(net.factory());
     let router = Arc::new(QuicRouter::default());
-    let qlog: Arc<dyn qevent::telemetry::QLog + Send + Sync> = Arc::new(NoopLogger);
+    let captured = Arc::new(crate::qlogcap::Captured::default());
+    let qlog: Arc<dyn qevent::telemetry::QLog + Send + Sync> = {
+        use crate::{QlogMode, qlogcap::CaptureLog};
+        let net2 = net.clone();
+        // address validation of the client is established when the server first processes a Handshake packet
+        let on_event: Arc<dyn Fn(bool, &qevent::Event) + Send + Sync> = Arc::new(move |server, ev| {
+            if server && net2.inner.lock().unwrap().server_validated_at.is_none() {
+                let v = serde_json::to_value(ev).unwrap_or_default();
+                if v["name"].as_str().is_some_and(|n| n.ends_with("packet_received")) && v["data"]["header"]["packet_type"] == "handshake" {
+                    net2.mark_server_validated();
+                }
+            }
+        });
+        match case.qlog {
+            QlogMode::Noop => Arc::new(NoopLogger),
+            QlogMode::Capture => Arc::new(CaptureLog { sink: captured.clone(), raw: false, filter: None, discard: false, on_event: Some(on_event) }),
+            QlogMode::CaptureRaw => Arc::new(CaptureLog { sink: captured.clone(), raw: true, filter: None, discard: false, on_event: Some(on_event) }),
+            QlogMode::Filtered => Arc::new(CaptureLog { sink: captured.clone(), raw: false, filter: Some(case.seed | 1), discard: false, on_event: None }),
+            QlogMode::DiscardAll => Arc::new(CaptureLog { sink: captured.clone(), raw: false, filter: None, discard: true, on_event: None }),
+            QlogMode::Legacy => Arc::new(NoopLogger),
+        }
+    };
 
     // server
     let listeners = QuicListeners::builder()
@@ -395,7 +419,7 @@ pub async fn drive(case: &Case) -> Outcome {
             return out;
         }
     };
-    if let Err(e) = listeners.add_server("localhost", SERVER_CERT, SERVER_KEY, [BindUri::from("inet://127.0.0.1:4433")], None).await {
+    if let Err(e) = listeners.add_server("localhost", if case.big_cert { BIG_SERVER_CERT } else { SERVER_CERT }, if case.big_cert { BIG_SERVER_KEY } else { SERVER_KEY }, [BindUri::from("inet://127.0.0.1:4433")], None).await {
         out.harness_error = Some(format!("add_server: {e}"));
         return out;
     }
@@ -420,7 +444,7 @@ pub async fn drive(case: &Case) -> Outcome {
                     };
                     watch_terminated(ctx.clone(), 1, conn.clone());
                     run_side(ctx.clone(), Side::Server, conn).await;
-                    hs.abort();
+                    let _ = hs.await;
                 }
                 Err(_) => ctx.finish_actor("s.accept_conn", false, "listeners shut down"),
             }
@@ -429,7 +453,7 @@ pub async fn drive(case: &Case) -> Outcome {
 
     // client
     let mut roots = rustls::RootCertStore::empty();
-    roots.add_parsable_certificates(CertificateDer::pem_slice_iter(CA_CERT).map(Result::unwrap));
+    roots.add_parsable_certificates(CertificateDer::pem_slice_iter(if case.big_cert { BIG_CA_CERT } else { CA_CERT }).map(Result::unwrap));
     let client = QuicClient::builder()
         .with_router(router.clone())
         .with_iface_factory(factory.clone())
@@ -464,8 +488,11 @@ pub async fn drive(case: &Case) -> Outcome {
     // workload phase
     let cap_ms = std::env::var("NETSIM_CAP_MS").ok().and_then(|s| s.parse().ok()).unwrap_or(case.cap_ms as u64);
     let cap = Duration::from_millis(cap_ms);
+    let mut client_hs = client_hs;
     let workload = async {
         let _ = client_task.await;
+        // the client's handshake outcome (confirmed or failed) belongs to the workload
+        let _ = (&mut client_hs).await;
         // the listener's accept() is not bound to any connection: if the client is finished and the server
         // never saw a connection, give it a grace period and stop waiting
         let mut server_task = server_task;
@@ -540,6 +567,13 @@ pub async fn drive(case: &Case) -> Outcome {
     }
     let failed: Vec<(String, String)> = l.finished.iter().filter(|(_, (_, ok, _))| !ok).map(|(k, (_, _, d))| (k.clone(), d.clone())).collect();
     let g = net.inner.lock().unwrap();
+    if std::env::var("NETSIM_DUMP_QLOG").is_ok() {
+        for (who, server) in [("client", false), ("server", true)] {
+            for e in captured.side(server).iter().take(std::env::var("NETSIM_DUMP_QLOG").ok().and_then(|s| s.parse().ok()).unwrap_or(60)) {
+                eprintln!("QLOG {who} {}", serde_json::to_string(e).unwrap_or_default());
+            }
+        }
+    }
     if std::env::var("NETSIM_DUMP").is_ok() {
         for e in &g.log {
             eprintln!("WIRE t={} dir={} #{} len={} first={:#x} fault={:?} qdrop={}", e.at_ms, e.dir, e.ordinal, e.len, e.first, e.fault, e.queue_drop);
@@ -552,7 +586,9 @@ pub async fn drive(case: &Case) -> Outcome {
     let rtt_ms = (case.net.latency_ms[0] + case.net.latency_ms[1]) as u64;
     match case.profile {
         Profile::Bounded => {
-            if !completed || !pending.is_empty() {
+            if l.handshaked_at[0].is_none() || l.handshaked_at[1].is_none() {
+                out.violate("liveness-handshake", "", format!("bounded faults (last fired at {last_fault} ms) but the handshake did not complete on both sides by {completed_at} ms: handshaked_at {:?}, terminated {:?}", l.handshaked_at, l.terminated_at), completed_at);
+            } else if !completed || !pending.is_empty() {
                 let hs = l.handshaked_at;
                 let clause = if hs[0].is_none() || hs[1].is_none() { "liveness-handshake" } else { "liveness-transfer" };
                 out.violate(clause, "", format!("bounded faults (last fired at {last_fault} ms) but at {completed_at} ms still pending: {pending:?}; failed: {failed:?}; handshaked_at {hs:?}"), completed_at);
@@ -594,6 +630,12 @@ pub async fn drive(case: &Case) -> Outcome {
     for (k, v) in &g.fired {
         out.stats.add(k, *v);
     }
+    drop(g);
+    if case.qlog == crate::QlogMode::Capture || case.qlog == crate::QlogMode::CaptureRaw {
+        crate::oracles::check_packet_roundtrip(&mut out, &captured);
+        crate::oracles::check_amplification(&mut out, &net);
+    }
+    let g = net.inner.lock().unwrap();
     out.stats.add("datagrams_c2s", g.ordinals[0] as u64);
     out.stats.add("datagrams_s2c", g.ordinals[1] as u64);
     if completed && pending.is_empty() && failed.is_empty() {
